@@ -125,13 +125,10 @@ static bool same(const std::vector<OD>& a, const std::vector<OD>& b) {
 
 static std::set<std::string> g_states;
 
-static void do_case(const std::vector<int>& h) {
-    // model pre-pass: enabledness
-    { Model m; for (int ev : h) { if (!m.enabled(ev)) { R->count("histories_not_enabled"); return; } m.apply(ev); } }
-    const std::string cs = vf::join_ints(h);
-    R->current(cs + " = " + hist_str(h));
-    R->evaluations++; R->transitions += h.size();
-    const std::string rep = "{\"case\": " + vf::jstr(cs) + ", \"history\": " + vf::jstr(hist_str(h)) + "}";
+static bool enabled(const std::vector<int>& h) { Model m; for (int ev : h) { if (!m.enabled(ev)) return false; m.apply(ev); } return true; }
+
+// runs one enabled history on the real code; returns "" or the defect key (+ description)
+static std::string check(const std::vector<int>& h, std::string& what_out, bool record) {
 
     std::unique_ptr<Opm::Schedule> sched;
     try {
@@ -139,8 +136,8 @@ static void do_case(const std::vector<int>& h) {
         if (!B->es) B->es = std::make_unique<Opm::EclipseState>(deck);
         sched = std::make_unique<Opm::Schedule>(deck, *B->es, B->python);
     } catch (const std::exception& e) {
-        R->violation("C17:hist:schedule-rejects-history", "building Schedule for history [" + hist_str(h) + "] throws: " + std::string(e.what()).substr(0, 200), rep);
-        return;
+        what_out = "building Schedule for history [" + hist_str(h) + "] throws: " + std::string(e.what()).substr(0, 200);
+        return "C17:hist:schedule-rejects-history";
     }
     const double undef = sched->getUDQConfig(0).params().undefinedValue();
     Opm::SummaryState st(Opm::TimeService::from_time_t(sched->getStartTime()), undef);
@@ -154,7 +151,7 @@ static void do_case(const std::vector<int>& h) {
         // events of report step index r-1
         while (pos < h.size() && h[pos] != STEP) { m.apply(h[pos]); ++pos; }
         if (pos < h.size()) ++pos;       // the STEP itself
-        g_states.insert(m.key());
+        if (record) g_states.insert(m.key());
         const std::vector<OD> before = m.value;
         const Model mb = m;
         const char what = m.evaluate(r);
@@ -164,8 +161,8 @@ static void do_case(const std::vector<int>& h) {
             sched->getUDQConfig(r - 1).eval(r, sched->wellMatcher(r), sched->segmentMatcherFactory(r),
                                             []() { return std::unique_ptr<Opm::RegionSetMatcher>{}; }, st, udq_state);
         } catch (const std::exception& e) {
-            R->violation("C17:hist:eval-throws", "history [" + hist_str(h) + "]: UDQConfig::eval at report step " + std::to_string(r) + " throws: " + std::string(e.what()).substr(0, 200), rep);
-            return;
+            what_out = "history [" + hist_str(h) + "]: UDQConfig::eval at report step " + std::to_string(r) + " throws: " + std::string(e.what()).substr(0, 200);
+            return "C17:hist:eval-throws";
         }
         std::vector<OD> got, got_st;
         for (int w = 0; w < 3; ++w) {
@@ -181,23 +178,53 @@ static void do_case(const std::vector<int>& h) {
             else if (what == 'd' && mb.pending && same(got, std::vector<OD>(3, mb.pending))) key = "C17:hist:assign-overrides-later-define";
             else if (what == 'a' && mb.has_def && same(got, dv)) key = "C17:hist:define-overrides-later-assign";
             else if (what == 'a' && same(got, before)) key = "C17:hist:assign-not-applied";
-            R->violation(key, "history [" + hist_str(h) + "] then report steps: at step " + std::to_string(r) + " WUX = " + show(got) + ", lifecycle model = " + show(m.value)
-                         + " (model: " + (what == 'a' ? "assigned" : what == 'd' ? "definition evaluated" : "kept") + ", previous " + show(before) + ")", rep);
-            R->count("viol:" + key);
-            return;
+            what_out = "history [" + hist_str(h) + "] then report steps: at step " + std::to_string(r) + " WUX = " + show(got) + ", lifecycle model = " + show(m.value)
+                         + " (model: " + (what == 'a' ? "assigned" : what == 'd' ? "definition evaluated" : "kept") + ", previous " + show(before) + ")";
+            return key;
         }
         // SummaryState must mirror UDQState (undefined is stored as the undefined value)
         for (int w = 0; w < 3; ++w) {
             const bool ok = got[w] ? (got_st[w] && *got_st[w] == *got[w]) : (!got_st[w] || *got_st[w] == undef);
-            if (!ok) { R->violation("C17:hist:summary-state-differs-from-udq-state", "history [" + hist_str(h) + "] step " + std::to_string(r) + ": UDQState " + show(got) + " SummaryState " + show(got_st), rep); return; }
+            if (!ok) { what_out = "history [" + hist_str(h) + "] step " + std::to_string(r) + ": UDQState " + show(got) + " SummaryState " + show(got_st); return "C17:hist:summary-state-differs-from-udq-state"; }
         }
         if (m.y_assigned) {
-            if (!udq_state.has("FUY") || udq_state.get("FUY") != 1.0) { R->violation("C17:hist:unrelated-quantity-lost", "history [" + hist_str(h) + "] step " + std::to_string(r) + ": FUY not 1", rep); return; }
+            if (!udq_state.has("FUY") || udq_state.get("FUY") != 1.0) { what_out = "history [" + hist_str(h) + "] step " + std::to_string(r) + ": FUY not 1"; return "C17:hist:unrelated-quantity-lost"; }
         }
     }
-    R->traces_validated++;
-    R->observe(trace);
-    if (R->evaluations % 97 == 1) R->sample_str(hist_str(h) + "  =>  " + trace);
+    if (record) {
+        R->traces_validated++;
+        R->observe(trace);
+        if (R->evaluations % 97 == 1) R->sample_str(hist_str(h) + "  =>  " + trace);
+    }
+    return "";
+}
+
+struct Found { std::vector<int> h; std::string what; };
+static std::map<std::string, Found> g_viol;       // defect key -> shortest history (after shrinking)
+static void do_case(const std::vector<int>& h) {
+    if (!enabled(h)) { R->count("histories_not_enabled"); return; }
+    const std::string cs = vf::join_ints(h);
+    R->current(cs + " = " + hist_str(h));
+    R->evaluations++; R->transitions += h.size();
+    std::string what;
+    const std::string key = check(h, what, true);
+    if (key.empty()) return;
+    R->count("viol:" + key);
+    // shrink: drop single events while the same defect key is reproduced
+    std::vector<int> best = h; bool shrunk = true;
+    while (shrunk) {
+        shrunk = false;
+        for (size_t i = 0; i < best.size(); ++i) {
+            std::vector<int> c = best; c.erase(c.begin() + i);
+            std::string w2;
+            if (enabled(c) && check(c, w2, false) == key) { best = c; what = w2; shrunk = true; break; }
+        }
+    }
+    auto& f = g_viol[key];
+    if (f.what.empty() || best.size() < f.h.size()) f = {best, what};
+}
+static void flush_violations() {
+    for (auto& [key, f] : g_viol) R->violation(key, f.what, "{\"case\": " + vf::jstr(vf::join_ints(f.h)) + ", \"history\": " + vf::jstr(hist_str(f.h)) + "}");
 }
 
 int main(int argc, char** argv) {
@@ -216,6 +243,7 @@ int main(int argc, char** argv) {
         std::vector<int> h; std::string s = run.replay_path; for (auto& c : s) if (c == ',') c = ' ';
         std::istringstream is(s); int v; while (is >> v) h.push_back(v);
         do_case(h);
+        flush_violations();
         return run.finish();
     }
     for (int len = 0; len <= L; ++len) {
@@ -228,5 +256,6 @@ int main(int argc, char** argv) {
         }
     }
     run.count("model_states_seen_by_shard0", run.shard == 0 ? (long long)g_states.size() : 0);
+    flush_violations();
     return run.finish();
 }
